@@ -30,6 +30,14 @@ def cases(tier, rng):
         for lens in itertools.product(GRID_SMALL, repeat=nf):
             out.append("e%d enc %s" % (k, ";".join(frame_tok(l, k + i) for i, l in enumerate(lens))))
             k += 1
+    # "decoding those bytes with the library yields the identical message": the real decoder on the real encoder's bytes
+    for nf in (1, 2, 3):
+        for lens in itertools.product(GRID_SMALL, repeat=nf):
+            out.append("d%d encdec %s" % (k, ",".join(str(l) for l in lens)))
+            k += 1
+    for lens in ([70000], [0, 70000, 0], [131072, 0], [1 << 20, 1, 0]):
+        out.append("d%d encdec %s" % (k, ",".join(str(l) for l in lens)))
+        k += 1
     nfs = (1, 2, 3) if tier == "quick" else (1, 2, 3, 4)
     for nf in nfs:
         for lens in itertools.product(GRID, repeat=nf):
@@ -100,6 +108,10 @@ def py_hdr(more, n):
     return bytes([3 if more else 2]) + n.to_bytes(8, "big")
 
 
+def compare_filter(line):
+    return line.split()[1] != "encdec"      # implementation-only round trip, judged by the oracle
+
+
 def model_cases(case_lines):
     # the model has no `hs` observation: drop that op on the model side
     return [l.replace(" / hs a", "") for l in case_lines]
@@ -140,6 +152,10 @@ def judge(line, impl_obs, orc):
         return "no observation"
     if impl_obs.startswith(("panic", "abort", "hang")):
         return "implementation " + impl_obs
+    if kind == "encdec":
+        if impl_obs != "lib=ok":
+            return "the library does not decode the bytes it encoded back to the identical message: " + str(impl_obs)
+        return None
     if kind == "enc":
         frames = [expand(t) for t in sp[2].split(";")]
         want = "ok " + ";".join(f.hex() or "-" for f in frames) + " rest=0"
